@@ -130,3 +130,129 @@ Theorem Inv2_run raises ls : Inv2 (ghost_of (history raises ls)) (run raises ls)
 Proof.
   pose proof (grun_inv2 raises ls g0 init Inv2_init) as H. rewrite grun_spec in H. exact H.
 Qed.
+
+(** ---- no deadlock *)
+
+(** thread [w] of the program has started and not finished its method:
+    the monitor thread has not ended; close() was called and has not returned;
+    thread t is inside register() *)
+Definition unfinished (s : state) (w : who) : Prop :=
+  match w with
+  | Mon => forall e, m_pc s <> MExited e
+  | Closer => match closer s with CNone | CDone _ => False | _ => True end
+  | Reg t => is_mid (regs s t) = true
+  end.
+
+(** the next access of [w] can be executed now (its step is not a no-op) *)
+Definition enabled (raises : nat -> bool) (s : state) (w : who) : Prop :=
+  snd (step raises s (Step w)) <> ODisabled.
+
+(** [w] is about to acquire the lock *)
+Definition at_acquire (s : state) (w : who) : Prop :=
+  match w with
+  | Mon => m_pc s = MAcq1 \/ m_pc s = MAcq2
+  | Reg t => regs s t = RAcq
+  | Closer => False
+  end.
+
+Section NoDeadlock.
+Variable raises : nat -> bool.
+
+Lemma disabled_unchanged s w :
+  snd (step raises s (Step w)) = ODisabled -> fst (step raises s (Step w)) = s.
+Proof.
+  destruct w as [| |t]; simpl.
+  - unfold step_mon, mon_exit. destruct (m_pc s); destruct_matches; simpl; intros H; try discriminate; reflexivity.
+  - unfold step_closer. destruct (closer s); destruct_matches; simpl; intros H; try discriminate; reflexivity.
+  - unfold step_reg. destruct (regs s t); destruct_matches; simpl; intros H; try discriminate; reflexivity.
+Qed.
+
+Lemma mon_locked_enabled s : mon_locked (m_pc s) -> enabled raises s Mon.
+Proof.
+  unfold enabled. simpl. unfold step_mon, mon_exit.
+  destruct (m_pc s); simpl; intros H; try elim H; destruct_matches; simpl; discriminate.
+Qed.
+
+Lemma reg_locked_enabled s t : reg_locked (regs s t) -> enabled raises s (Reg t).
+Proof.
+  unfold enabled. simpl. unfold step_reg. destruct (regs s t); simpl; intros H; try elim H; discriminate.
+Qed.
+
+(** every unfinished thread is enabled, or waits for the lock whose holder is inside its
+    critical section and enabled, or is close() waiting in join() for the live monitor *)
+Theorem no_deadlock_state g s : Inv g s -> Inv2 g s ->
+  forall w, unfinished s w ->
+    enabled raises s w
+    \/ (at_acquire s w /\ exists h, lock s = Some h /\ h <> w /\ unfinished s h /\ enabled raises s h)
+    \/ (w = Closer /\ closer s = CJoining /\ unfinished s Mon).
+Proof.
+  intros I J w Hu.
+  assert (Hholder : forall h, lock s = Some h -> unfinished s h /\ enabled raises s h).
+  { intros [| |t] Hl.
+    - apply (i_lock_mon _ _ I) in Hl. split; [|apply mon_locked_enabled; exact Hl].
+      simpl. intros e E. rewrite E in Hl. exact Hl.
+    - elim (i_lock_closer _ _ I Hl).
+    - apply (i_lock_reg _ _ I) in Hl. split; [|apply reg_locked_enabled; exact Hl].
+      simpl. destruct (regs s t); simpl in *; tauto. }
+  destruct w as [| |t]; simpl in Hu.
+  - (* monitor *)
+    destruct (m_pc s) eqn:Epc;
+      try (left; apply mon_locked_enabled; rewrite Epc; exact Logic.I).
+    + destruct (lock s) as [h|] eqn:El.
+      * right; left. split; [simpl; tauto|]. exists h. destruct (Hholder h eq_refl). repeat split; auto.
+        intros ->. apply (i_lock_mon _ _ I) in El. rewrite Epc in El. exact El.
+      * left. unfold enabled. simpl. unfold step_mon. rewrite Epc, El. simpl. discriminate.
+    + left. unfold enabled. simpl. unfold step_mon. rewrite Epc. destruct_matches; simpl; discriminate.
+    + destruct (lock s) as [h|] eqn:El.
+      * right; left. split; [simpl; tauto|]. exists h. destruct (Hholder h eq_refl). repeat split; auto.
+        intros ->. apply (i_lock_mon _ _ I) in El. rewrite Epc in El. exact El.
+      * left. unfold enabled. simpl. unfold step_mon. rewrite Epc, El. simpl. discriminate.
+    + elim (Hu e). reflexivity.
+  - (* close() *)
+    destruct (closer s) eqn:Ec; try elim Hu;
+      try (left; unfold enabled; simpl; unfold step_closer; rewrite Ec; destruct_matches; simpl; discriminate).
+    right; right. split; [reflexivity|]. split; [reflexivity|]. simpl. apply (j_join _ _ J Ec).
+  - (* register() in thread t *)
+    destruct (regs s t) eqn:Er; try discriminate;
+      try (left; apply reg_locked_enabled; rewrite Er; exact Logic.I).
+    destruct (lock s) as [h|] eqn:El.
+    + right; left. split; [simpl; exact Er|]. exists h. destruct (Hholder h eq_refl). repeat split; auto.
+      intros ->. apply (i_lock_reg _ _ I) in El. rewrite Er in El. exact El.
+    + left. unfold enabled. simpl. unfold step_reg. rewrite Er, El. simpl. discriminate.
+Qed.
+
+(** hence: as long as some thread is unfinished, some unfinished thread can take a step *)
+Corollary some_enabled g s : Inv g s -> Inv2 g s ->
+  (exists w, unfinished s w) -> exists w, unfinished s w /\ enabled raises s w.
+Proof.
+  intros I J [w Hu].
+  assert (Hone : forall w, unfinished s w -> w <> Closer -> exists w', unfinished s w' /\ enabled raises s w').
+  { intros w0 H0 Hn. destruct (no_deadlock_state g s I J w0 H0) as [H|[(_ & h & _ & _ & H1 & H2)|(E & _)]].
+    - exists w0. tauto.
+    - exists h. tauto.
+    - contradiction. }
+  destruct (no_deadlock_state g s I J w Hu) as [H|[(_ & h & _ & _ & H1 & H2)|(E & _ & Hm)]].
+  - exists w. tauto.
+  - exists h. tauto.
+  - apply (Hone Mon Hm). discriminate.
+Qed.
+
+End NoDeadlock.
+
+(** an enabled step really changes the state *)
+Lemma enabled_changes raises s w :
+  enabled raises s w -> fst (step raises s (Step w)) <> s.
+Proof.
+  unfold enabled. destruct w as [| |t]; simpl.
+  - unfold step_mon, mon_exit. destruct (m_pc s) eqn:Epc; destruct_matches; simpl; intros Hn H;
+      try (elim Hn; reflexivity);
+      try (apply (f_equal m_pc) in H; simpl in H; congruence).
+    all: try (apply (f_equal m_cbs) in H; simpl in H;
+              match goal with E : m_cbs _ = _ |- _ => rewrite E in H end;
+              apply (f_equal (@length nat)) in H; simpl in H; lia).
+  - unfold step_closer. destruct (closer s) eqn:Ec; destruct_matches; simpl; intros Hn H;
+      try (elim Hn; reflexivity); apply (f_equal closer) in H; simpl in H; congruence.
+  - unfold step_reg. destruct (regs s t) eqn:Er; destruct_matches; simpl; intros Hn H;
+      try (elim Hn; reflexivity);
+      apply (f_equal (fun x => regs x t)) in H; simpl in H; rewrite set_reg_eq in H; congruence.
+Qed.
